@@ -15,7 +15,8 @@ from vlib import core, gen, corpus, trees, ppcommon
 
 LEVEL_NOTE = [
     "Lean 4.33 kernel; axioms ⊆ {propext, Classical.choice, Quot.sound} (audited each run)",
-    "the theorems are per value class (C01_string_roundtrip, C01_int_roundtrip, C01_enum_roundtrip, C01_number_at_string_keyword, C01_bool_roundtrip) over the printer and transformer models; the block structure is covered by C16_well_nested (printed lines obey the END discipline) and C02's fold theorems; the composed statement `loads(dumps(d)) = normD d` needs the step 'Lark tokenises and parses the printed text into the tree the printer intends' (parser + lexer gap), which is exercised on every case, not proved",
+    "value level: C01_string_roundtrip, C01_int_roundtrip, C01_enum_roundtrip, C01_number_at_string_keyword, C01_bool_roundtrip over the printer and transformer models; composed on the TREE of the printed text: C01_line_* (keyword lines, keyword in any letter case), C01_line_ints, C01_kv_block, C01_level_roundtrip, C01_tree_step and C01_document_roundtrip (rule induction over the class WellRead of block trees, any depth and width) with the decidable classifier of Model/Classify.lean (classify_sound); the harness runs the classifier on the real Lark tree of every printed document and compares its dictionary with the real transformer's (`classify`), and reports how many documents are inside the class",
+    "not proved: the step text -> tree (Lark's lexer and LALR driver on the printed text), exercised on every case by `line-shape`, `transform(printed)`, `classify` and the real loads/dumps/loads oracle; documents with CONFIG / POINTS at some level are outside the class (counted)",
     "hand models of pprint.py / quoter.py / transformer.py, tied by exact-string and exact-dictionary correspondences each run; Gen tables regenerated",
     "floats are carried as Python's repr (floatCanon: float(repr(x)) == x is CPython's guarantee)",
     "documented exclusions (counted, not compared): a string containing the output quote; a string at an expression-capable keyword that looks like an expression / regex / list / binding",
